@@ -967,3 +967,30 @@ Lemma boom_restored :
   run_shared true boom_store boom_reqs = [RErr (EUser 7); RErr (EUser 7)] /\
   run_shared true assert_store2 assert_reqs2 = [RErr (EAssert 4); RErr (EAssert 4)].
 Proof. vm_compute. split; reflexivity. Qed.
+
+(* ------------------------------------------------------------------ *)
+(* super[e]: the answer must not depend on what happens to be interned *)
+
+Lemma super_lookup_is_lookup it o s :
+  super_lookup it (Some o) s = match lookup it o s with Some v => SFound v | None => SUnknownField end.
+Proof. unfold super_lookup, lookup. destruct (get_interned it s); reflexivity. Qed.
+
+Theorem super_lookup_sound : forall ss later sup s,
+  let it := intern_all [] ss in
+  (forall o, sup = Some o -> names_interned it o) ->
+  super_lookup it sup s = super_lookup_ref it sup s /\
+  super_lookup (intern_all it later) sup s = super_lookup it sup s.
+Proof.
+  intros ss later sup s it Hn. destruct sup as [o|].
+  - destruct (intern_lookup_sound ss later o s (Hn o eq_refl)) as [H1 H2]. fold it in H1, H2.
+    rewrite !super_lookup_is_lookup. unfold super_lookup_ref. rewrite H2, H1. split; reflexivity.
+  - unfold super_lookup, super_lookup_ref.
+    destruct (get_interned it s); destruct (get_interned (intern_all it later) s); split; reflexivity.
+Qed.
+
+(* before db09b8e: the same request, no super object, answers differently once somebody
+   has interned the string *)
+Lemma super_lookup_old_history_dependent :
+  super_lookup_old (intern_all [] []) None [122; 113] = SUnknownField /\
+  super_lookup_old (intern_all (intern_all [] []) [[122; 113]]) None [122; 113] = SNoSuper.
+Proof. vm_compute. split; reflexivity. Qed.
